@@ -1,6 +1,7 @@
 //! Simulation framework: seeded PRNG, entropy seam, run isolation, batch driver, minimisation,
 //! replay files, evidence and known-findings handling.
 
+pub mod bytepipe;
 pub mod driver;
 pub mod e2;
 pub mod entropy;
